@@ -14,6 +14,7 @@ LEVEL = "model_checking"
 KERNEL = "\n".join(["aa %rax, %rbx", "bb %rbx, %rcx", "aa (%rdx), %rcx", "zz %rcx, %rax",
                     "bb %rcx, %rcx"]) + "\n"
 _G = {}
+_LAST_FS = {}
 
 
 # ------------------------------------------------------------------------------------------
@@ -280,7 +281,9 @@ def apply_history(item):
 # ------------------------------------------------------------------------------------------
 # part 3: N processes cold-starting on the same directory (cooperative schedule exploration)
 
-def race_execution(prefix, root, nproc, chunks):
+def race_execution(prefix, root, nproc, chunks, initial=None):
+    """initial: None (no cache yet) or {path: bytes} of files present before the processes start
+    (e.g. a cache file left torn by an interrupted run)"""
     import osaca.semantics.hw_model as hm
     if "race_dir" not in _G:
         _G["race_dir"] = make_dir(root, "race_%d" % os.getpid(), "A")
@@ -288,6 +291,8 @@ def race_execution(prefix, root, nproc, chunks):
     mp = os.path.join(d, "data", "model.yml")
     c = coop.Coop(prefix)
     fs = vfs.RaceFS(c, chunks=chunks)
+    if initial:
+        fs.files.update(initial)
     saved = (hm.Path, hm.os)
     hm.Path = vfs.make_path_class(fs)
     hm.os = vfs.RaceOS(fs, c)
@@ -304,6 +309,7 @@ def race_execution(prefix, root, nproc, chunks):
         c.run()
     finally:
         hm.Path, hm.os = saved
+    _LAST_FS["files"] = dict(fs.files)
     final = {}
     for name, content in fs.files.items():
         try:
@@ -315,14 +321,24 @@ def race_execution(prefix, root, nproc, chunks):
 
 
 def race_config(item):
-    root, nproc, chunks, bound, maxexec = item
+    root, nproc, chunks, bound, maxexec = item[:5]
+    start = item[5] if len(item) > 5 else "empty"
     ref_dig = _G["ref"]["A"][0]
     n = 0
     bad = []
     outcomes = set()
+    initial = None
+    if start == "torn":
+        # learn name and content of the cache file from one undisturbed cold start, then let the
+        # processes start on a directory in which that file was left half-written
+        c0, (r0, e0, f0, l0) = race_execution([], root, 1, 1)
+        files = dict(_LAST_FS["files"])
+        initial = {k: v[:len(v) // 2] for k, v in files.items() if k.endswith(".pickle")}
+        if not initial:
+            raise core.HarnessError("cold start left no cache file in the race store: %r" % f0)
 
     def mk(prefix):
-        return race_execution(prefix, root, nproc, chunks)
+        return race_execution(prefix, root, nproc, chunks, initial)
 
     for choices, (results, errors, final, log) in coop.explore(mk, bound=bound,
                                                                 max_executions=maxexec):
@@ -433,29 +449,34 @@ def run(ctx):
     res.extra["history_states"] = len(seen)
     res.add_sample({"history": ["run", "editB", "tear", "ro", "run"]})
     # part 3: races
-    rplan = [(root, 2, 1, 2, None), (root, 2, 2, 2, None), (root, 3, 1, 1, 1500)]
+    rplan = [(root, 2, 1, 2, None), (root, 2, 2, 2, None), (root, 3, 1, 1, 1500),
+             (root, 2, 1, 2, None, "torn"), (root, 3, 1, 1, 1500, "torn")]
     if ctx.thorough:
         rplan = [(root, 2, 1, None, None), (root, 2, 2, 3, None), (root, 2, 3, 2, None),
-                 (root, 3, 1, 2, 6000), (root, 3, 2, 1, 6000)]
+                 (root, 3, 1, 2, 6000), (root, 3, 2, 1, 6000),
+                 (root, 2, 1, None, None, "torn"), (root, 2, 2, 2, None, "torn"),
+                 (root, 3, 1, 2, 6000, "torn")]
     rout = core.pmap(race_config, rplan, chunk=1)
-    for (root_, nproc, chunks, bound, mx), (n, bad, nout) in rout:
+    for ritem, (n, bad, nout) in rout:
+        root_, nproc, chunks, bound, mx = ritem[:5]
+        start = ritem[5] if len(ritem) > 5 else "empty"
         res.states += n
         res.traces += n
         res.transitions += n
         res.nontrivial += n
         res.outcomes.add(("race", nproc, nout))
-        res.add_sample({"race": "%d processes cold-start, write cut into %d chunk(s)"
-                        % (nproc, chunks), "preemption_bound": bound if bound is not None
+        res.add_sample({"race": "%d processes cold-start (%s cache dir), write cut into %d chunk(s)"
+                        % (nproc, start, chunks), "preemption_bound": bound if bound is not None
                         else "complete", "schedules": n, "execution_cap": mx})
         if mx and n >= mx:
             res.caps_hit.append("race %d procs/%d chunks: stopped after %d schedules" %
                                 (nproc, chunks, n))
         for bk, choices, what in bad:
             res.violations.append(core.Violation(
-                {"part": "race", "kind": bk}, "[%d processes, %d chunks] schedule %r: %s"
-                % (nproc, chunks, choices, what),
+                {"part": "race", "kind": bk}, "[%d processes, %d chunks, start=%s] schedule %r: %s"
+                % (nproc, chunks, start, choices, what),
                 {"part": "race", "nproc": nproc, "chunks": chunks, "schedule": choices,
-                 "what": what}))
+                 "start": start, "what": what}))
     # part 4
     if ctx.thorough:
         names = drive.shipped_archs() + ["isa/x86", "isa/aarch64"]
@@ -503,8 +524,13 @@ def replay(ctx, payload):
         print(bad)
         return 1 if bad else 0
     if r["part"] == "race":
-        c, obs = race_execution(r["schedule"], root, r["nproc"], r["chunks"])
-        c2, obs2 = race_execution(r["schedule"], root, r["nproc"], r["chunks"])
+        initial = None
+        if r.get("start") == "torn":
+            race_execution([], root, 1, 1)
+            initial = {k: v[:len(v) // 2] for k, v in _LAST_FS["files"].items()
+                       if k.endswith(".pickle")}
+        c, obs = race_execution(r["schedule"], root, r["nproc"], r["chunks"], initial)
+        c2, obs2 = race_execution(r["schedule"], root, r["nproc"], r["chunks"], initial)
         assert obs[:3] == obs2[:3], "replay not deterministic"
         print(obs[1], obs[2], obs[3])
         pk = {k: v for k, v in obs[2].items() if k.endswith(".pickle")}
